@@ -59,10 +59,16 @@ def cases(draw: Any, tier: str) -> dict:
                         steps.append({"op": "svc"})
                     else:
                         step = {"op": "td", "pass_exc": k == "td_exc", "nested": d.pct(25)}
+                        if step["nested"] and d.pct(10):
+                            step["late_many"] = d.pick([33, 40, 64])  # it registers dozens of further callbacks during teardown
                         if k == "td" and d.pct(35):
                             # the callback comes with a resource; sometimes a callable whose truth value is False
                             step["via"] = d.pick(["resource", "resource", "resource_falsy"])
                         steps.append(step)
+                if d.pct(3):
+                    # dozens of teardown callbacks on the root context
+                    for _ in range(d.pick([32, 35, 48, 80])):
+                        steps.append({"op": "td", "pass_exc": False, "nested": False})
                 c[ph] = steps
             else:
                 c[ph] = None
@@ -175,14 +181,18 @@ class Interp:
                 elif op == "td":
                     mark = "td:" + name
 
-                    def cb(*a: Any, m: str = mark, nested: bool = bool(st_.get("nested"))) -> None:
+                    def cb(*a: Any, m: str = mark, nested: bool = bool(st_.get("nested")), many: int = st_.get("late_many", 0)) -> None:
                         interp.ran.append(m)
                         if nested:
                             # registered during teardown: runs next (LIFO)
                             add_teardown_callback(lambda: interp.ran.append(m + "+late"))
+                            for k in range(many):
+                                add_teardown_callback(lambda k=k: interp.ran.append(f"{m}+late{k}"))
 
                     if st_.get("nested"):
                         interp.registered.append(mark + "+late")  # (runs after its registrar: listed first)
+                        for k in range(st_.get("late_many", 0)):
+                            interp.registered.append(f"{mark}+late{k}")  # (LIFO: the last one registered runs first)
                     if st_.get("pass_exc"):
                         add_teardown_callback(lambda exc, cb=cb: cb(exc), pass_exception=True)
                     elif st_.get("via"):
